@@ -820,3 +820,47 @@ Proof. exists []. vm_compute. discriminate. Qed.
 (* "+k=\xff": the value came back as U+FFFD before the repair *)
 Lemma split_kv_old_refuted : exists s, split_kv false s <> (upto_sep s, after_sep s).
 Proof. exists [ascii_of_N 107; ascii_of_N 61; ascii_of_N 255]. vm_compute. discriminate. Qed.
+
+(* ------------------------------------------------------------------ *)
+(* every name of a declaration (guard: no name on a continuation line) *)
+(* ------------------------------------------------------------------ *)
+
+Lemma names_on_first_line evs : name_on_continuation_line evs = false ->
+  forall d l, In d (decls_of evs) -> In l (d_names d) -> l = p_line (d_pos d).
+Proof.
+  unfold name_on_continuation_line. intros H d l Hd Hl.
+  destruct (Z.eqb l (p_line (d_pos d))) eqn:E; [apply Z.eqb_eq; exact E|].
+  exfalso. assert (Hx : existsb (fun d => existsb (fun l => negb (Z.eqb l (p_line (d_pos d)))) (d_names d)) (decls_of evs) = true).
+  { apply existsb_exists. exists d. split; [exact Hd|]. apply existsb_exists. exists l. split; [exact Hl|]. rewrite E. reflexivity. }
+  congruence.
+Qed.
+
+Lemma names_partial evs leads : wf evs leads -> name_on_continuation_line evs = false ->
+  forall d l, In d (decls_of evs) -> In l (d_names d) ->
+    doc_of true true (build true evs) (p_file (d_pos d)) l
+    = extract_tags true [] (doc_lines_above leads (p_file (d_pos d)) (p_line (d_pos d)))
+    /\ (forall c, d_cmt d = Some c ->
+          comment_of true (build true evs) (p_file (d_pos d)) l = spec_lines (g_text c)).
+Proof.
+  intros WF Hn d l Hd Hl. rewrite (names_on_first_line evs Hn d l Hd Hl). split.
+  - apply doc_own; assumption.
+  - intros c Hc. apply (comment_own evs leads WF d c Hd Hc).
+Qed.
+
+(* `// doc` / `F,` / `G int // trailing FG`: G is on line 5, the declaration starts on line 4 *)
+Definition n_doc : group := mk_group (mk_pos 0 3 2) 3 (bs "doc" ++ [c_nl]).
+Definition n_trail : group := mk_group (mk_pos 0 5 8) 5 (bs "trailing FG" ++ [c_nl]).
+Definition n_fg : decl := mk_decl (mk_pos 0 4 2) [4%Z; 5%Z] (Some n_doc) (Some n_trail).
+Definition n_events : list event := [EDecl n_fg; EGroup n_doc; EGroup n_trail].
+
+Lemma names_refuted :
+  exists evs leads d l c, wf evs leads /\ In d (decls_of evs) /\ In l (d_names d) /\ d_cmt d = Some c /\
+    comment_of true (build true evs) (p_file (d_pos d)) l <> spec_lines (g_text c) /\
+    doc_of true true (build true evs) (p_file (d_pos d)) l
+    <> extract_tags true [] (doc_lines_above leads (p_file (d_pos d)) (p_line (d_pos d))).
+Proof.
+  exists n_events, [n_doc], n_fg, 5%Z, n_trail.
+  split; [apply wf_b_sound; vm_compute; reflexivity|].
+  split; [left; reflexivity|]. split; [right; left; reflexivity|]. split; [reflexivity|].
+  split; vm_compute; discriminate.
+Qed.
